@@ -77,6 +77,8 @@ type Exec struct {
 	cfg       map[string]string
 	freshN    int
 	lenient   bool
+	feasCache map[string]bool
+	feasHits  int
 	lightCache map[[2]interface{}]bool
 	slowN     int
 	replace   map[string]*ssa.Function
@@ -86,7 +88,7 @@ type Exec struct {
 func NewExec(prog *ssa.Program) *Exec {
 	return &Exec{prog: prog, unroll: 8, nextObj: 1, globals: map[*ssa.Global]int{}, globalTy: map[int]types.Type{}, globalNm: map[int]string{},
 		pdomCache: map[*ssa.Function][]*ssa.BasicBlock{}, funcsSeen: map[string]bool{}, stubsUsed: map[string]bool{},
-		nondets: map[string]*Term{}, lightCache: map[[2]interface{}]bool{}, nondetTy: map[string]string{}, maxSteps: 3_000_000, cfg: map[string]string{}}
+		nondets: map[string]*Term{}, feasCache: map[string]bool{}, lightCache: map[[2]interface{}]bool{}, nondetTy: map[string]string{}, maxSteps: 3_000_000, cfg: map[string]string{}}
 }
 
 func (e *Exec) fresh(prefix string, s Sort) *Term {
@@ -151,8 +153,21 @@ func (e *Exec) feasible(st *State, c *Term) bool {
 	if e.conc != nil {
 		as = append(as, e.conc.sideConstraints()...)
 	}
+	ids := make([]int, len(as))
+	for i, a := range as {
+		ids[i] = a.ID
+	}
+	sort.Ints(ids)
+	key := fmt.Sprint(ids)
+	if r, ok := e.feasCache[key]; ok {
+		e.feasHits++
+		return r
+	}
 	t0 := time.Now()
 	res, _ := e.solver.Check(as, 5000, false)
+	if res != "unknown" {
+		e.feasCache[key] = res != "unsat"
+	}
 	if d := time.Since(t0); d > 100*time.Millisecond && os.Getenv("VERIF_PROGRESS") != "" {
 		e.slowN++
 		if e.slowN <= 5 {
